@@ -197,7 +197,11 @@ func c02Peek(sh load.Shedder) (int64, float64) {
 		return -1, 0
 	}
 	e := v.Elem()
-	return e.FieldByName("flying").Int(), e.FieldByName("avgFlying").Float()
+	fl, avg := e.FieldByName("flying"), e.FieldByName("avgFlying")
+	if !fl.IsValid() || !avg.IsValid() || fl.Kind() != reflect.Int64 || avg.Kind() != reflect.Float64 {
+		return -1, 0
+	}
+	return fl.Int(), avg.Float()
 }
 
 func c02Handler(out string, before func()) func(ctx context.Context, req any) (any, error) {
